@@ -781,6 +781,11 @@ class NpyArray:
         self.shape = (length, ) + self.shape[1:]
         self._prepare_header_data()
 
+        # The header on disk must describe the shorter array before the file is shrunk,
+        # otherwise a crash in between leaves a file that promises more rows than it has
+        self._write_header_data()
+        self.fs.flush()
+
         self.fs.seek(self.header_length + self.size * self.itemsize)
         self.fs.truncate()
 
